@@ -34,7 +34,7 @@ def configs():
 class C07(Check):
     ID = 'C07'
     LEVEL = 'exploration'
-    BUDGET = {'quick': 30, 'thorough': 300}
+    BUDGET = {'quick': 30, 'thorough': 240}
     RULE = ('case = (configuration, timestamps, parent context). Box: EVERY gap sequence of length <= 5 (quick) / 6 (thorough) over the gap alphabet {0,1,2,3,4,5} '
             '(contains timeout-1, timeout, timeout+1 for active=4 and inactive=2) x start offset 0..2 x all 12 configurations (each timeout present/None, closing mapper '
             'present/None, include True/False); then random sequences up to 60 items with other timeouts, timestamps as int and as datetime/timedelta, under group_by '
@@ -69,7 +69,7 @@ class C07(Check):
         self.box_done = 1
 
     def _random(self, rng, tier):
-        k = 1500 if tier == 'quick' else 15000
+        k = 1500 if tier == 'quick' else 10 ** 7
         names = ['group', 'top', 'roll', 'split', 'group']
         for j in range(k):
             name = names[j % len(names)]
